@@ -148,4 +148,12 @@ CHECKS = {
              "checks": ["c14-heartbeat"]},
         ],
     },
+    "C06": {
+        "level": "fault_enumeration",
+        "groups": [
+            {"name": "c06", "run": "^TestC06_", "shards": {"quick": 16, "thorough": 16},
+             "timeout": {"quick": 900, "thorough": 3000},
+             "checks": ["c06-lifecycle", "c06-cut-enumeration"]},
+        ],
+    },
 }
